@@ -82,6 +82,29 @@ def run(tier, seed):
                 "schema/codec/metadata/sync arguments} x codec x sync_interval x validator; after every flush the stream is "
                 "read back and its header compared; non-trivial = history with >= 2 distinct operation kinds")
     run.lean(TARGETS, THEOREMS)
+    from props.common import load_corpus
+    for name, c in load_corpus("C07"):
+        ps = fastavro.parse_schema(c["schema"])
+        fo = io.BytesIO()
+        w = Writer(fo, ps)
+        good = []
+        for op in c["ops"]:
+            if op[0] == "f":
+                w.flush()
+            else:
+                try:
+                    w.write(op[1])
+                    good.append(op[1])
+                except Exception:
+                    pass
+        run.count({"corpus": name}, True, ["corpus"])
+        try:
+            back = list(fastavro.reader(io.BytesIO(fo.getvalue())))
+        except Exception as e:  # noqa
+            back = repr(e)
+        if back != good:
+            run.fail({"corpus": name, "ops": c["ops"], "read_back": repr(back)[:300], "tags": ["corpus"]},
+                     "corpus history %s no longer reads back as the records submitted" % name, kind="oracle")
     nh = scale(tier, 250)
     hist_cases = []
     for i in range(nh):
